@@ -4953,7 +4953,10 @@ bool RemapCompareLess(FunctionRemap *in1, FunctionRemap *in2) {
 
   // ok maybe something to do with return strength..
 
-  return false;
+  // Equally specific.  Fall back on the signature, so that the order in which
+  // the overloads are tried (and written out) does not depend on where the
+  // remaps happen to be allocated.
+  return in1->_function_signature < in2->_function_signature;
 }
 
 /**
